@@ -128,6 +128,8 @@ type l1World struct {
 	waitBG  bool
 	// noConverge: only the stored-log invariants are checked at settle points (C06)
 	noConverge bool
+	// noRebuild: checkSnapshots leaves out the server's rebuild (the log is knowingly half-written)
+	noRebuild bool
 	// keys that are excluded from the convergence check (touched by the REST patch endpoint, whose
 	// effect on replicas is C19's subject)
 	skipConverge map[string]bool
